@@ -6,7 +6,7 @@ import families as fam_mod
 ID = 'C11'
 NAMESPACE = 'VL.C11'
 LEAN_MODULES = ['VotelibProofs.Props.C11']
-GEN_MODULES = ['Divisor', 'Quota']
+GEN_MODULES = ['Divisor', 'Quota', 'Threshold', 'RankScore', 'PairwinScorer']
 REQUIRED = ['getNBest_scale', 'plurality_scale', 'highestAverages_scale', 'sumVals_scale', 'hare_homogeneous',
             'hagenbach_bischoff_homogeneous', 'imperiali_homogeneous', 'quotaSelector_scale', 'near_tie_separated',
             'equal_rationals_tied',
@@ -15,7 +15,8 @@ REQUIRED = ['getNBest_scale', 'plurality_scale', 'highestAverages_scale', 'sumVa
             'approvalRule_scale', 'condorcetEv_scale', 'condorcetSet_scale', 'rankedToCondorcetVotes_linear',
             'condorcetRule_scale', 'condorcetSetRule_scale', 'benham_scale', 'tideman_scale',
             'spav_scale', 'pav_scale', 'pav_fresh_scale',
-            'scoreVoting_scale', 'scoreAggregate_scale', 'majorityJudgmentPlus_scale', 'star_scale']
+            'scoreVoting_scale', 'scoreAggregate_scale', 'majorityJudgmentPlus_scale', 'star_scale',
+            'bucklin_scale', 'bucklinWhole_scale']
 # families whose scale invariance is proved in Lean (Props/C11.lean); the rest is covered by the oracle only
 PROVED_FAMILIES = ['plurality', 'ha_d_hondt', 'ha_sainte_lague', 'ha_imperiali', 'ha_danish', 'ha_macau', 'quota_selector_hare',
                    'rel_threshold_5pc', 'rel_threshold_third',
@@ -27,7 +28,10 @@ PROVED_FAMILIES = ['plurality', 'ha_d_hondt', 'ha_sainte_lague', 'ha_imperiali',
                    'condorcet_minimax_winvotes', 'condorcet_minimax_margins', 'condorcet_minimax_pwo',
                    'condorcet_winner', 'smith_set', 'schwartz_set', 'benham', 'tideman_alternative',
                    'approval_pav', 'approval_spav',
-                   'score_mean', 'score_sum0', 'score_median', 'majority_judgment_plus', 'star']
+                   'score_mean', 'score_sum0', 'score_median', 'majority_judgment_plus', 'star', 'bucklin']
+# proved for a part of the family's parameter space only: the rest stays listed as unproved
+PARTLY_PROVED = {'bucklin': 'n_seats > 1 (only the one-seat evaluator is modelled: C17)',
+                 'tideman_alternative': 'n_seats > 1 (only the single-winner tier is modelled: C05)'}
 MULTIPLIERS = [2, 3, 7, 10 ** 6, 10 ** 25 + 7]
 SMALL_MULTIPLIERS = [2, 3, 7]
 NAMES = Names(prefix='cand')
@@ -111,6 +115,8 @@ def _init_unproved():
         for f in fams().values():
             if f.scale_free and f.name not in PROVED_FAMILIES:
                 UNPROVED.append('scale_invariant_' + f.name)
+            elif f.name in PARTLY_PROVED:
+                UNPROVED.append(f'scale_invariant_{f.name} for {PARTLY_PROVED[f.name]}')
     except Exception:
         pass
 
@@ -244,6 +250,10 @@ def model_line(case):
         if f in CONDORCET_SETS or f.startswith('condorcet_'):
             name = CONDORCET_SETS.get(f) or f[len('condorcet_'):]
             return {'op': 'c11_condorcet', 'name': name, 'profile': prof, 'votes': pairwise_of(prof), 'n': case['n']}
+        if f == 'bucklin':
+            if case['n'] != 1:
+                return None          # the C17 model is the one-seat evaluator
+            return {'op': 'c11_bucklin', 'votes': enc_ranked(prof), 'split': True}
         if f in ('benham', 'tideman_alternative'):
             if case['n'] != 1:
                 return None          # the C05 models are the single-winner evaluators
